@@ -343,3 +343,25 @@ Proof.
       - rewrite (step_csug_same w a Ne). destruct a; try reflexivity. contradiction. }
     rewrite E. apply IH.
 Qed.
+
+(* under LongRunning the suggestion is never Succeeded: the step clause of the C16 monitor on the model's projections *)
+Lemma sug_succeeded_project w : sug_succeeded (project w) = match w_sug w with Some s => s_is (s_st s) SSucceeded | None => false end.
+Proof. unfold sug_succeeded, project. cbn [pj_sug]. destruct (w_sug w); reflexivity. Qed.
+
+Lemma longrunning_state w : SuccInv w -> c_resume (w_cfg w) = LongRunning -> sug_succeeded (project w) = false.
+Proof.
+  intros S R. rewrite sug_succeeded_project. destruct (w_sug w) as [s|] eqn:Hs; [|reflexivity].
+  destruct (s_is (s_st s) SSucceeded) eqn:E; [|reflexivity]. destruct (si_sug _ S _ Hs E) as [N _]. congruence.
+Qed.
+
+Theorem longrunning_never_succeeded_model w acts :
+  Inv w -> SuccInv w -> c_resume (w_cfg w) = LongRunning -> no_teardown acts ->
+  all_states (fun p => negb (sug_succeeded p)) (project w) (msteps w acts) = true.
+Proof.
+  intros I S R NT. unfold all_states. rewrite (longrunning_state w S R). cbn [negb andb].
+  revert w I S R NT. induction acts as [|a l IH]; intros w I S R NT; [reflexivity|].
+  apply no_teardown_cons in NT as [Na NT]. cbn [msteps forallb snd].
+  assert (S' : SuccInv (step w a)) by (apply step_succ; auto; rewrite R; discriminate).
+  assert (R' : c_resume (w_cfg (step w a)) = LongRunning) by now rewrite step_cfg.
+  rewrite (longrunning_state _ S' R'). cbn [negb andb]. apply IH; auto. now apply step_inv.
+Qed.
